@@ -13,6 +13,11 @@ spec/Conservation.tla (+ Conservation_MC slices, ConservationTrace).  Directions
                  forms) and the drift of B @ yout over one integration are recorded as a trace
                  and judged by TLC (ConservationTrace); seeded formula-defined systems beyond the
                  pool bounds (real substances, up to 5 reactions) are judged the same way.
+  histories    : on ONE system object, queries (composition vectors directly / through a freshly
+                 built ODE system, with every single-substance elimination) are interleaved with
+                 reorderings of its substances (sort_substances_inplace with the order chosen by TLC);
+                 pools with stoichiometric coefficients 2 and 3 (NH3/N2/H2, H2O2/H2O/O2, ...).  Every
+                 observation is judged by TLC against the substance order current at that point.
 The dyn slices model-check the action property [][B.c' = B.c]_vars along Euler steps.
 """
 import random
@@ -29,12 +34,15 @@ ASSUMPTIONS = [
     "all substances carry compositions (the statement's precondition); duplicate reactions and unknown keys are outside the model",
     "the ValueError text is projected to the first integer in '(<key>: ' - the key it names",
     "drift of an integration is encoded as ceil(|B.y - B.c0| * 1e12) per row; allowed drift per unit row weight is the trace constant DriftTolE12 (1e-8; observed drift on the pinned tree: 1e-12) at requested atol = rtol = 1e-9",
+    "Reorder(p) is executed as rsys.sort_substances_inplace(key=rank given by p); seeded systems use the default key and log the observed permutation",
     "rates are observed with int concentrations and int/Fraction rate constants (exact arithmetic in the library)",
 ]
 
 QUICK = [("build_q", ["GenSubstance", "GenReaction", "Build", "GenFinish"], 500, 24),
          ("inact_q", ["GenReaction", "Build"], 250, 8)]
 THOROUGH = [("build_t", [], None, 400), ("inact_t", [], None, 100), ("build3_t", [], None, 150)]
+HIST_QUICK = [("hist_nh_q", ["GenQuery", "GenReorder"], 48), ("hist_per_q", ["GenQuery", "GenReorder"], 32)]
+HIST_THOROUGH = [("hist_nh_t", [], 400), ("hist_per_t", [], 400), ("hist_w_t", [], 400), ("hist_nox_t", [], 500)]
 DYN_QUICK = [("dyn_q", ["GenSetState", "GenEulerStep", "GenSafeStep"])]
 DYN_THOROUGH = [("dyn_t", [])]
 
@@ -181,6 +189,98 @@ def replay_case(item):
     except core.MachineryFailure as e:
         out["error"] = str(e)
     return out
+
+
+def lindep_events(odesys, extra, names, prefs, skips):
+    evs = []
+    for pref in prefs:
+        kind, val = cc.observe_lindep(odesys, extra, pref)
+        if kind != "forms":
+            skips.append("elimination " + kind)
+            continue
+        for f in val:
+            e = {"ev": "LinDep", "pref": pref or []}
+            e.update(f)
+            evs.append(e)
+        evs.append({"ev": "LinDepDone", "complete": pref is None})
+    return evs
+
+
+def replay_hist(item):
+    """A history on ONE ReactionSystem object: queries (composition vectors directly, or through a
+    freshly built ODE system with every single-substance elimination) interleaved with reorderings
+    of its substances (sort_substances_inplace with the order chosen by TLC)."""
+    case, text_route = item
+    from chempy.kinetics.ode import get_odesys
+    import warnings
+    sysin = case["in"]
+    out = {"trace": None, "skips": [], "obs": None}
+    rsys, obs = (cc.build_text if text_route else cc.build_obj)(sysin)
+    tr = cc.system_events(sysin) + [cc.build_event(obs)]
+    out["obs"] = obs
+    names = cc.names_of(sysin)
+    if rsys is not None:
+        for op in sysin["hist"]:
+            if op["op"] == "reorder":
+                p = [int(x) for x in cc.seq(op["p"])]
+                new = [names[i - 1] for i in p]
+                rank = {n: i for i, n in enumerate(new)}
+                rsys.sort_substances_inplace(key=lambda kv: rank[kv[0]])
+                names = new
+                tr.append({"ev": "Reorder", "p": p})
+                continue
+            tr.append({"ev": "Query", "kind": op["kind"]})
+            if op["kind"] == "B":
+                tr.append({"ev": "Names", "names": list(rsys.substances.keys()), "src": "rsys.substances"})
+                bv = cc.observe_bvectors(rsys)
+                if bv is not None:
+                    tr.append(dict(ev="BVectors", src="composition_balance_vectors", **bv))
+                N = cc.observe_net(rsys)
+                if N is not None:
+                    tr.append({"ev": "NetStoich", "N": N})
+            else:
+                try:
+                    with warnings.catch_warnings():
+                        warnings.simplefilter("ignore")
+                        odesys, extra = get_odesys(rsys)
+                except Exception as e:
+                    out["skips"].append("deep observation raised %s" % type(e).__name__)
+                    continue
+                tr.append({"ev": "Names", "names": list(odesys.names), "src": "odesys.names"})
+                li = odesys.linear_invariants
+                A = [] if li is None else cc.int_matrix(li.tolist())
+                if A is not None:
+                    tr.append({"ev": "BVectors", "B": A, "keys": [int(x) for x in (odesys.linear_invariant_names or [])],
+                               "src": "odesys.linear_invariants"})
+                if extra["linear_dependencies"] is not None:
+                    tr += lindep_events(odesys, extra, list(odesys.names), [None] + [[n] for n in odesys.names],
+                                        out["skips"])
+    tr.append({"ev": "End"})
+    out["trace"] = tr
+    return out
+
+
+def run_hist_slice(ctx, sl, res, n_cases, titems):
+    cases = [c for c in res.cases if c["exp"]["accept"]
+             and len(c["exp"]["red"]["subs"]) == len(c["in"]["subs"])]   # get_odesys needs every substance used
+    ctx.skip("history system with an unused substance", len(res.cases) - len(cases))
+    if len(cases) < 8:
+        raise core.MachineryFailure("vacuity: history slice %s has %d usable cases" % (sl, len(cases)))
+    for c in cases:
+        c["cls"] = "hist-%d-%s" % (len(c["in"]["hist"]), "".join(o["op"][0] + o["kind"][:1] for o in c["in"]["hist"]))
+    sel = ctx.pick(cases, n_cases)
+    outs = cc.pmap(replay_hist, [(c, i % 3 == 2) for i, c in enumerate(sel)])
+    ctx.cases_replayed += len(sel)
+    for case, out in zip(sel, outs):
+        sysin = case["in"]
+        ctx.ran(core.stable_hash([cc.names_of(sysin), sysin["lines"], sysin["hist"]]), nontrivial=True)
+        for why in out["skips"]:
+            ctx.skip(why)
+        titems.append(({"fn": "ReactionSystem/history", "cls": case["cls"], "lines": sysin["lines"],
+                        "substances": cc.names_of(sysin), "hist": sysin["hist"], "slice": sl}, out["trace"], out["obs"]))
+    if sel:
+        ctx.sample({"slice": sl, "substances": cc.names_of(sel[-1]["in"]), "lines": sel[-1]["in"]["lines"],
+                    "hist": sel[-1]["in"]["hist"]}, cap=8)
 
 
 def judge_traces(ctx, items, source):
@@ -347,6 +447,19 @@ def run_seeded(item):
             f = cc.observe_rates(rsys, names, cvec)
             if f is not None:
                 tr.append({"ev": "RatesAt", "c": cvec, "f": f})
+        # history: the substances are put in sorted order in place, then asked again
+        old = list(rsys.substances.keys())
+        rsys.sort_substances_inplace()
+        new = list(rsys.substances.keys())
+        if new != old:
+            tr.append({"ev": "Reorder", "p": [old.index(n) + 1 for n in new]})
+            tr.append({"ev": "Names", "names": new, "src": "rsys.substances"})
+            bv = cc.observe_bvectors(rsys)
+            if bv is not None:
+                tr.append(dict(ev="BVectors", src="composition_balance_vectors", **bv))
+            N = cc.observe_net(rsys)
+            if N is not None:
+                tr.append({"ev": "NetStoich", "N": N})
     tr.append({"ev": "End"})
     lines = ["%s -> %s" % (sorted(a.items()), sorted(b.items())) for a, b in rx]
     return names, lines, tr, obs
@@ -357,12 +470,17 @@ def run(ctx):
     titems = []
     slices = QUICK if ctx.quick else THOROUGH
     dyn = DYN_QUICK if ctx.quick else DYN_THOROUGH
+    hists = HIST_QUICK if ctx.quick else HIST_THOROUGH
     jobs = [("Conservation_MC", "Conservation_MC_%s.cfg" % sl, dict(require_actions=a, require_cases=20, timeout=1500))
             for sl, a, _, _ in slices]
+    jobs += [("Conservation_MC", "Conservation_MC_%s.cfg" % sl, dict(require_actions=a, require_cases=20, timeout=1500))
+             for sl, a, _ in hists]
     jobs += [("Conservation_MC", "Conservation_MC_%s.cfg" % sl, dict(require_actions=a, timeout=1500)) for sl, a in dyn]
     results = cc.tlc_many(ctx, jobs, workers=6 if ctx.quick else 8)
     for (sl, actions, n_cases, n_deep), res in zip(slices, results):
         run_slice(ctx, sl, res, n_cases, n_deep, titems, n_rej_traces=None if ctx.quick else 6000)
+    for (sl, actions, n_cases), res in zip(hists, results[len(slices):]):
+        run_hist_slice(ctx, sl, res, n_cases, titems)
     ctx.exhaustive = not ctx.quick
 
     # code -> spec: seeded formula-defined systems beyond the pool
@@ -413,7 +531,23 @@ def replay(ctx, rec):
         sysin = {"subs": subs, "rxns": rxns, "lines": [line(r) for r in rxns],
                  "tout": [[1, 100], [1, 10], [1, 1], [5, 1]],
                  "tol": {"atol": [1, 10 ** 9], "rtol": [1, 10 ** 9], "guard": 200}}
-        text_route = str(rec["key"].get("fn", "")).endswith("/text")
+        fn = str(rec["key"].get("fn", ""))
+        if fn in ("ReactionSystem/history", "ReactionSystem/seeded"):
+            if fn.endswith("history"):
+                sysin["hist"] = [{"op": "query", "kind": e["kind"], "p": []} if e["ev"] == "Query"
+                                 else {"op": "reorder", "kind": "", "p": e["p"]}
+                                 for e in tr if e["ev"] in ("Query", "Reorder")]
+                new = replay_hist(({"in": sysin}, False))["trace"]
+            else:
+                rx = [[{names[i]: n for i, n in enumerate(r["reac"]) if n}, {names[i]: n for i, n in enumerate(r["prod"]) if n}]
+                      for r in rxns]
+                new = run_seeded((names, rx, 0))[2]
+            v, pos, clause = ctx.validate_traces("ConservationTrace", TRACE_CFG, [new])[0]
+            if v != "accept":
+                ctx.violation(rec["key"], {"observed": new[pos - 1] if 0 < pos <= len(new) else {},
+                                           "verdict": {"verdict": v, "pos": pos, "clause": clause}})
+            return
+        text_route = fn.endswith("/text")
         rsys, obs = (cc.build_text if text_route else cc.build_obj)(sysin)
         new = cc.system_events(sysin) + [cc.build_event(obs)]
         if rsys is not None:
